@@ -84,7 +84,7 @@ def display_focus_cell(st, d):
     cols = P["DisplayRow"].getattr(None, st, row, "base_widget")
     first = P["DisplayRow"].getattr(None, st, row, "first_position")
     cf = P["DisplayColumns"].getattr(None, st, cols, "focus")
-    if is_none(cf) or not widget_truthy(st, val(cf)):
+    if is_none(cf):
         return first
     return first + P["DisplayColumns"].getattr(None, st, cols, "focus_position")
 
@@ -331,6 +331,7 @@ class gf_get_display_widget:
 
     def effects(old, s, a, result):
         s._contents.fields["_focus"] = old._contents._focus
+        s.fields["_wrapped_widget"] = result  # one name for the display widget in place (its state versions are per name)
         cur().event("refresh", a.size, result)
 
 
@@ -356,18 +357,100 @@ class gf_set_focus_from_dw:
             yield "display-widget-without-focus-changes-nothing", s._contents._focus == old._contents._focus
         else:
             # the statement: the focus position is the position of the cell focused in the display widget
-            # FAILS-ON-TREE for a focus cell that is falsy (an empty container: its class defines __len__) -- see
-            # "/falsy-focus-cell" below
+            # (failed before fix: commit e2a8602 for a focus cell that is falsy -- an empty container, whose class defines
+            #  __len__: `if c.focus:` made the position first_position + 0; the truthiness of a cell stays an uninterpreted predicate here)
             row = val(PROTOCOLS["DisplayWidget"].getattr(None, cur(), old._wrapped_widget, "focus"))
             cols = PROTOCOLS["DisplayRow"].getattr(None, cur(), row, "base_widget")
             cf = PROTOCOLS["DisplayColumns"].getattr(None, cur(), cols, "focus")
             first = PROTOCOLS["DisplayRow"].getattr(None, cur(), row, "first_position")
             cpos = PROTOCOLS["DisplayColumns"].getattr(None, cur(), cols, "focus_position")
-            odd = "/falsy-focus-cell" if not widget_truthy(cur(), val(cf)) else ""
-            yield "focus-is-the-cell-focused-in-the-display-widget" + odd, s._contents._focus == first + cpos
+            yield "focus-is-the-cell-focused-in-the-display-widget", s._contents._focus == first + cpos
             yield "a-valid-position", both(0 <= s._contents._focus, s._contents._focus < n_cells(old))
         yield "cells-and-display-widget-untouched", both(n_cells(s) == n_cells(old), eq(s._wrapped_widget, old._wrapped_widget))
         yield "display-widget-not-called", len(display_calls()) == 0
 
     def effects(old, s, a, result):
         s.fields["_wrapped_widget"] = old._wrapped_widget
+
+
+# ------------------------------------------------------------------------------------------------ entry points that take a size
+def _at_exit(fn):
+    """Evaluate a ghost reading of an opaque object in its state at the exit of the function under verification
+    (postconditions otherwise read the children as they were at entry, pyvc/api.py VerifyTask.body)."""
+    st = cur()
+    saved = st.ghost.get("ver")
+    post = st.ghost.get("ver_post")
+    if post is not None:
+        st.ghost["ver"] = dict(post)
+    try:
+        return fn()
+    finally:
+        st.ghost["ver"] = saved
+
+
+def _display_has(obj, name):
+    """A display Pile has the cursor protocol; the lone Divider of an empty GridFlow has not (its class does not define
+    get_cursor_coords / move_cursor_to_coords / get_pref_col); both have keypress, mouse_event, rows, render, pack."""
+    if name in ("get_cursor_coords", "move_cursor_to_coords", "get_pref_col"):
+        return _display_cells(obj) > 0
+    return True
+
+
+DisplayWidgetProtocol.hasattr = lambda self, ip, st, obj, name: _display_has(obj, name)
+DisplayWidgetProtocol.has = dict(WidgetProtocol.has, mouse_event=True)
+
+
+def _events():
+    """The ghost trace restricted to what matters here: display-widget refreshes and calls on a display widget."""
+    return [e for e in cur().trace if e[0] == "refresh" or (e[0] == "call" and getattr(e[1], "kind", None) == "DisplayWidget")]
+
+
+def _refreshed_then(name, a, argnames):
+    """(clauses, the call event or None): the display widget was made current for a.size FIRST, and then `name` was
+    called exactly once, on that very display widget, with the caller's own arguments."""
+    ev = _events()
+    ok_refresh = len(ev) >= 1 and ev[0][0] == "refresh" and eq(ev[0][1], a.size)
+    call = ev[1] if len(ev) == 2 and ev[1][0] == "call" and ev[1][2] == name else None
+    clauses = [("display-widget-made-current-for-this-size-first", ok_refresh)]
+    if call is None:
+        clauses.append((f"then-{name}-delegated-once", False))
+    else:
+        clauses.append((f"then-{name}-delegated-once-to-that-display-widget", both(eq(call[1], ev[0][2]), *[eq(call[3][k], getattr(a, k)) for k in argnames])))
+    return clauses, call, (ev[0][2] if ev and ev[0][0] == "refresh" else None)
+
+
+ENTRY_INL = GINL
+SUPER = "urwid/widget/widget.py:delegate_to_widget_mixin.<locals>.DelegateToWidgetMixin."
+
+
+def _entry(name, **kw):
+    inl = ENTRY_INL + tuple(SUPER + m for m in ("render", "keypress", "rows", "pack", "get_cursor_coords", "move_cursor_to_coords", "mouse_event", "get_pref_col"))
+    return contract(GF + "GridFlow." + name, replayable=False, inline=inl, **kw)
+
+
+@_entry("keypress", property=("C08", "C09"))
+class gf_keypress:
+    self_shape = GRIDFLOW
+    params = dict(size=GSIZE, key=Opaque("Key"))
+    result = Opt(Opaque("Key"))
+    invariant = staticmethod(gf_inv)
+    raises = ()
+    modifies = ("_wrapped_widget", "_cache_maxcol")
+
+    def requires(s, a):
+        return gf_wf(s)
+
+    def ensures(old, s, a, result):
+        clauses, call, d = _refreshed_then("keypress", a, ("size", "key"))
+        yield from clauses
+        if call is None:
+            return
+        # C08: the key goes to the display widget only (whose own focus path is Pile / Columns', contracts/C08_focus.py);
+        # what it does not handle comes back as the display widget returned it
+        yield "result-is-the-display-widgets", opt_same(result, call[4])
+        if is_none(result):
+            want = _at_exit(lambda: display_focus_cell(cur(), d))
+            yield "handled-key-focus-follows-the-display-widget", (s._contents._focus == want if want is not None else s._contents._focus == old._contents._focus)
+        else:
+            yield "unhandled-key-leaves-the-focus", s._contents._focus == old._contents._focus
+        yield "cells-untouched", n_cells(s) == n_cells(old)
